@@ -219,8 +219,15 @@ def corruption_selftest(drv, traces, verdicts, groups, seed) -> dict:
                     kinds.append(kind)
         if not bad:
             continue
-        vs, _ = tlc.validate_traces(spec_name, bad, consts=getattr(drv, 'TRACE_CONSTS', ''), shards=1,
-                                    deque=getattr(drv, 'DEQUE', False))
+        try:
+            vs, _ = tlc.validate_traces(spec_name, bad, consts=getattr(drv, 'TRACE_CONSTS', ''), shards=1,
+                                        deque=getattr(drv, 'DEQUE', False))
+        except MachineryError:
+            # a corrupted line may be outside the domain of the specification's operators
+            # (e.g. an index that does not exist): TLC stops with an evaluation error, which
+            # is a rejection too - the self-test never turns that into a failure of the check
+            report[spec_name] = {'note': f'TLC could not evaluate a corrupted trace (of {len(bad)}): counted as rejected'}
+            continue
         rej = {k: [0, 0] for k in ('drop', 'swap', 'field')}
         for k, v in zip(kinds, vs):
             rej[k][1] += 1
